@@ -55,6 +55,23 @@ let handle = function
   | ["nanny"; objs; evs] ->
       let (e, l) = nanny_report (List.map ev_of (split_on ',' evs)) (List.map ni (split_on ',' objs)) in
       string_of_int (int_of_nat e) ^ " " ^ (if l = [] then "-" else String.concat "," (List.map (fun n -> string_of_int (int_of_nat n)) l))
+  | ["exitorder"; late; test] ->
+      String.concat "," (List.map (fun n -> string_of_int (int_of_nat n)) (exit_order (late = "1") (test = "1")))
+  | ["exitcall"; late; test; k] ->
+      (* exit_var = temp 0 (object 10), args tuple = temp 1 (object 11) when test; k = failing call (0 none) *)
+      let k = int_of_string k in
+      let o = orc_of (if k = 0 then None else Some (nat_of_int (k - 1))) [nat_of_int 0; nat_of_int 1] in
+      let st = { temps = (if test = "1" then [(nat_of_int 1, nat_of_int 11); (nat_of_int 0, nat_of_int 10)]
+                          else [(nat_of_int 0, nat_of_int 10)]);
+                 locs = []; res = None;
+                 tr = (if test = "1" then [Got (nat_of_int 11); Got (nat_of_int 10)] else [Got (nat_of_int 10)]);
+                 nxt = nat_of_int 12; calls = nat_of_int 0; allocs = nat_of_int 0; flag = false } in
+      let show tag s = tag ^ " " ^ String.concat " " (List.map ev_str (List.rev s.tr)) in
+      (match exit_call o (late = "1") (test = "1") (nat_of_int 0) (if test = "1" then [nat_of_int 1] else []) st with
+       | Norm s -> show (if s.flag then "true" else "false") s
+       | Err s -> show "err" s
+       | Stuck w -> "stuck " ^ why_str w
+       | _ -> "other")
   | _ -> "!ERR badcmd"
 
 let () = main_loop handle
